@@ -69,6 +69,8 @@ def _poly_eq(affine, expr, p) -> bool:
 def run(ck, m):
     from rules.common import rule_memo_safety
     rule_memo_safety(ck, m, "MEMO", "C01")          # first: a memoised helper also hides the code it wraps from the rules below
+    from rules.common import rule_stateless_renderers
+    rule_stateless_renderers(ck, m, "MEMO")
     tree = m.tree(CS)
     fold = Folder(tree)
     env = fold.env
